@@ -49,7 +49,7 @@ void reg_heat() {
       for (const char* cv : {"const", "var"}) {
         Sol s; s.name = "heateq_" + std::to_string(dim) + "d_" + st + "_" + cv; s.prop = "C01";
         s.nargs = dim + (std::string(st) == "unsteady" ? 1 : 0);
-        s.draw = draw; s.point = box_point; s.eval = eval; s.special_ok = [](const std::string&) { return 2; };
+        s.draw = draw; s.point = box_point; s.eval = eval; s.stretch = 1; s.special_ok = [](const std::string&) { return 2; };
         add(s);
       }
 }
